@@ -44,11 +44,22 @@ theorem hasCms_opsOf (ctx : Ctx) (h160 : Bytes → Bytes) :
       hasCms_opsOf ctx h160 y false hin.1.2, hasCms_opsOf ctx h160 z false hin.2]
   | .multi _ _, _, h | .multi_a _ _, _, h | .thresh _ _ _, _, h => by simp [inS1] at h
 
+/-- a run without OP_CHECKMULTISIG charges nothing beyond the static count. -/
+theorem execCharge_noCms (E : EvalEnv) : ∀ (ops : List Op) (s : St), hasCms ops = false →
+    execCharge E ops s = 0
+  | [], _, _ => rfl
+  | o :: os, s, h => by
+    rw [hasCms_cons, Bool.or_eq_false_iff] at h
+    simp only [execCharge, h.1, Bool.and_false, Bool.false_eq_true, if_false, Nat.zero_add]
+    cases step E o s with
+    | none => rfl
+    | some s' => exact execCharge_noCms E os s' h.2
+
 theorem engineLimits_of_withinLimits (ctx : Ctx) (h160 : Bytes → Bytes)
     (hh : ∀ b, (h160 b).length = 20) (n : Ms) (hin : inS1 n = true) (hshape : shaped ctx n = true)
     (hlim : withinLimits ctx n = true) (hops : (maxOps ctx n).isSome = true) (s : List Bytes)
     (h520 : ∀ e ∈ s, e.length ≤ 520) (h1000 : s.length ≤ MAX_STACK_SIZE) :
-    withinEngineLimits ctx (opsOf ctx h160 false n) s = true := by
+    withinEngineLimits ctx (opsOf ctx h160 false n) s 0 = true := by
   have hw : (s.all fun e => decide (e.length ≤ 520)) = true := by
     rw [List.all_eq_true]; intro e he; simpa using h520 e he
   unfold withinEngineLimits
@@ -66,7 +77,7 @@ theorem engineLimits_of_withinLimits (ctx : Ctx) (h160 : Bytes → Bytes)
       rw [ser_opsOf, ← scriptSize_eq_length .p2wsh h160 hh n false hshape]
       have : maxScriptSize .p2wsh = 3600 := rfl
       omega
-    simp [h1, h2, h1000, hasCms_opsOf .p2wsh h160 n false hin]
+    simp [h1, h2, h1000]
 
 theorem accepts_of_sat (E : EvalEnv) (hsig0 : ∀ k, E.sigOK k [] = false) (ctx : Ctx)
     (h160 : Bytes → Bytes) (hH : ∀ k, E.hashF .hash160 k = h160 k)
@@ -80,7 +91,8 @@ theorem accepts_of_sat (E : EvalEnv) (hsig0 : ∀ k, E.sigOK k [] = false) (ctx 
   obtain ⟨v, hv, _, hrun⟩ := bs s [] [] [] rfl hs
   simp only [List.append_nil] at hrun
   unfold accepts
-  rw [engineLimits_of_withinLimits ctx h160 hh n (inS1_of_s1Typed ctx n h) hshape hlim hops s h520 h1000, hrun]
+  rw [execCharge_noCms E _ _ (hasCms_opsOf ctx h160 n false (inS1_of_s1Typed ctx n h)),
+    engineLimits_of_withinLimits ctx h160 hh n (inS1_of_s1Typed ctx n h) hshape hlim hops s h520 h1000, hrun]
   simp [truthy_cast hv]
 
 theorem rejects_of_dsat (E : EvalEnv) (hsig0 : ∀ k, E.sigOK k [] = false) (ctx : Ctx)
